@@ -3,6 +3,8 @@
      {"e":"call","c":k}          call k issued (its nonce is k)
      {"e":"handler","c":k}       the server-side handler ran with call k's arguments
      {"e":"ret","c":k,"got":j}   call k returned the answer computed for call j (0: error / nothing)
+     {"e":"connlost"}            the connection of the calls went away (fault injected by the peer)
+     {"e":"fail","c":k}          call k returned an error (admitted only once the connection is lost)
      {"e":"end"}                 the run is over: nothing may be outstanding
      {"e":"reset"}
    call / handler are Correlation's Issue / HandlerRun; the transport steps between the handler and
@@ -18,22 +20,24 @@ IsEvent(e) == l <= Len(TraceLog) /\ Ev.e = e /\ l' = l + 1
 
 TInit == Init /\ l = 1
 TCall == IsEvent("call") /\ Ev.c \in Calls /\ Issue(Ev.c)
-THandler == IsEvent("handler") /\ Ev.c \in Calls /\ HandlerRun(Ev.c)        \* exactly once: enabled only in state "sent"
+THandler == IsEvent("handler") /\ Ev.c \in Calls /\ (HandlerRun(Ev.c) \/ HandlerLate(Ev.c))   \* exactly once: enabled only in state "sent" (or after the call failed, if it had not run)
+TConnLost == IsEvent("connlost") /\ ConnLost
+TFail == IsEvent("fail") /\ Ev.c \in Calls /\ Fail(Ev.c)
 TRet ==
   /\ IsEvent("ret") /\ Ev.c \in Calls
   /\ st[Ev.c] = "handled"                          \* exactly one outcome, after the handler ran
   /\ st' = [st EXCEPT ![Ev.c] = "returned"]
   /\ got' = [got EXCEPT ![Ev.c] = Ev.got]
   /\ pending' = pending \ {Ev.c}
-  /\ UNCHANGED <<runs, queue, wire>>
+  /\ UNCHANGED <<up, runs, queue, wire>>
   /\ Ev.got = Ev.c                                  \* its own answer (OwnAnswer on the new state, and not "nothing")
   /\ runs[Ev.c] = 1                                 \* HandlerOnce
-TEnd == IsEvent("end") /\ \A c \in Calls : st[c] \in {"idle", "returned"} /\ UNCHANGED vars
+TEnd == IsEvent("end") /\ \A c \in Calls : st[c] \in {"idle", "returned", "failed"} /\ UNCHANGED vars
 TReset == /\ IsEvent("reset")
-          /\ st' = [c \in Calls |-> "idle"] /\ pending' = {} /\ runs' = [c \in Calls |-> 0]
+          /\ st' = [c \in Calls |-> "idle"] /\ up' = TRUE /\ pending' = {} /\ runs' = [c \in Calls |-> 0]
           /\ queue' = <<>> /\ wire' = <<>> /\ got' = [c \in Calls |-> 0]
 
-TNext == TCall \/ THandler \/ TRet \/ TEnd \/ TReset
+TNext == TCall \/ THandler \/ TRet \/ TEnd \/ TReset \/ TConnLost \/ TFail
 TraceSpec == TInit /\ [][TNext]_tvars
 
 Mark == TLCSet(1, IF l - 1 > TLCGet(1) THEN l - 1 ELSE TLCGet(1))
